@@ -41,6 +41,28 @@ theorem C07_translated_isFalse (v : Val N) :
 
 theorem C07_translated_isFalse_is_the_models (v : Val N) : GenSlice.isFalse v = v.isFalse := gen_isFalse_eq v
 
+/-- ON THE CODE AS WRITTEN: `GenSlice.compareVals` is the comparator clause of `Execute` (interpreter.go,
+    `case ASTComparator:` after both operands are evaluated), translated statement by statement on every run.
+    `==` / `!=` are deep equality and its negation on ALL values; the ordering comparators compare two numbers
+    and are null as soon as one operand is not a number. -/
+theorem C07_translated_comparators (l r : Val N) :
+    GenSlice.compareVals .eq l r = .bool (Val.deepEq l r) ∧
+    GenSlice.compareVals .ne l r = .bool (!Val.deepEq l r) ∧
+    (∀ a b : N, l = .num a → r = .num b →
+      GenSlice.compareVals .lt l r = .bool (NumOps.lt a b) ∧ GenSlice.compareVals .lte l r = .bool (NumOps.le a b) ∧
+      GenSlice.compareVals .gt l r = .bool (NumOps.lt b a) ∧ GenSlice.compareVals .gte l r = .bool (NumOps.le b a)) ∧
+    ((∀ a, l ≠ .num a) ∨ (∀ b, r ≠ .num b) →
+      GenSlice.compareVals .lt l r = .null ∧ GenSlice.compareVals .lte l r = .null ∧
+      GenSlice.compareVals .gt l r = .null ∧ GenSlice.compareVals .gte l r = .null) := by
+  simp only [gen_compareVals_eq]
+  refine ⟨by simp [compareVals], by simp [compareVals], ?_, ?_⟩
+  · intro a b hl hr; subst hl; subst hr; simp [compareVals]
+  · intro h
+    cases l <;> cases r <;> simp [compareVals] <;> rcases h with h | h <;> first | exact absurd rfl (h _) | skip
+
+theorem C07_translated_comparators_are_the_models (op : Cmp) (l r : Val N) :
+    GenSlice.compareVals op l r = compareVals op l r := gen_compareVals_eq op l r
+
 /-- `a || b`: the value of `a` when it is true-like — whatever `b` is, even an
     expression that would fail: `b` is not evaluated — and otherwise the
     outcome of `b`.  The result is an operand value, not a boolean. -/
